@@ -159,11 +159,13 @@ pub enum AAct {
 }
 
 pub struct AModel {
-    ops: Vec<Op>,
-    base: String,
-    enc: TextEncoding,
-    edits: Vec<u8>,
-    others: u8,
+    pub ops: Vec<Op>,
+    pub base: String,
+    pub enc: TextEncoding,
+    pub edits: Vec<u8>,
+    pub others: u8,
+    /// include isolate / integrate in the alphabet
+    pub isolate: bool,
 }
 
 fn doc_of(a: &AutoCommit) -> Automerge {
@@ -238,6 +240,9 @@ impl Model for AModel {
                 }
             }
             for r in 0..n {
+                if !self.isolate {
+                    break;
+                }
                 if s.iso[r] {
                     v.push(AAct::Integrate(r));
                 } else {
@@ -423,7 +428,7 @@ pub fn run(args: &Args) -> i32 {
             }
             amodels.push((
                 format!("autocommit[{} {} L={:?} others={}]", theme, bname, edits, others),
-                AModel { ops: crate::alphabet::theme(theme).to_vec(), base: bname.to_string(), enc, edits, others },
+                AModel { ops: crate::alphabet::theme(theme).to_vec(), base: bname.to_string(), enc, edits, others, isolate: true },
             ));
         }
     }
